@@ -19,7 +19,7 @@ from props import wirelib as W
 
 PROP = "C14"
 COQ_FILES = ["Reload/Model.v", "Reload/Proofs.v", "Reload/Props.v"]
-BACKENDS = ["b0", "b1", "b2", "b3", "b4", "bd"]          # bd starts "down" (connection refused)
+BACKENDS = ["b0", "b1", "b2", "b3", "b4", "bd"]          # bd starts "down_held" (connection refused, port reserved)
 DBID = {"pa": 0, "pb": 1, "pc": 2}
 USERID = {"u": 0, "v": 1}
 F12 = "F12-config-stored-before-pools-built"
@@ -27,6 +27,11 @@ F12_TEXT = ("F12 reload_config stores the new CONFIG (parse) before ConnectionPo
             "(validate_config = true, min_pool_size >= 1, server unreachable) the reload returns Err, POOLS keeps the old pools while CONFIG "
             "(SHOW CONFIG, the next comparison) is the new file; every later RELOAD/SIGHUP of the same file compares it with the stored copy, "
             "answers Ok(false)/'RELOAD' and never builds the pools, even after the server is back")
+
+D2 = "D2-pool-mode-stale-in-connected-clients"
+D2_TEXT = ("D2 (minor) a reload that changes pool_mode is not in effect for clients that are already connected: Client.transaction_mode is computed once at "
+           "start-up (client.rs:734/786) and not refreshed after get_pool() (client.rs:1081); such a client runs its next transactions on the NEW pool object "
+           "but releases (or keeps) the server connection by the OLD mode")
 
 GEN_BASE = {"host": "127.0.0.1", "port": 6432, "admin_username": "admin", "admin_password": "adminpw",
             "connect_timeout": 300, "healthcheck_timeout": 500, "healthcheck_delay": 30000, "shutdown_timeout": 1500,
@@ -58,7 +63,7 @@ def render(sem, style=0):
     g = dict(GEN_BASE)
     g.update(sem.get("general", {}))
     if style & 2:
-        g.setdefault("server_round_robin", False)
+        g.setdefault("server_round_robin", True)     # General::default_server_round_robin() (config.rs:453)
     items = [(k, v) for k, v in g.items() if v is not None]
     if rev:
         items.reverse()
@@ -109,11 +114,11 @@ def render(sem, style=0):
     return "\n".join(out) + "\n"
 
 
-def canon_pool(p):
+def canon_pool(p, name=""):
     """what Pool::hash_value covers, as far as the grammar varies it (None = key absent)"""
     o = {k: v for k, v in p.get("opts", {}).items() if v is not None}
     us = [{k: v for k, v in u.items() if v is not None} for u in p["users"]]
-    return json.dumps({"o": o, "u": us, "s": p["shards"], "raw": p.get("raw")}, sort_keys=True)
+    return json.dumps({"o": o, "u": us, "s": p["shards"], "raw": p.get("raw"), "database": "db_" + name}, sort_keys=True)
 
 
 def canon_general(sem):
@@ -331,6 +336,15 @@ def make_cases(rng, quick):
             f2 = {"kind": "valid", "sem": sem, "style": style, "revive": True}
             cases.append({"name": name, "base": base, "files": [f1, f2], "timing": timing, "trigger": trig, "extra": {}, "old_style": 0})
         n += 1
+    # the same pairs with the OLD file in another rendering (one moment each, rotating)
+    for j, (name, base, sem, style, extra) in enumerate(valid_kinds()):
+        f1 = {"kind": "valid", "sem": sem, "style": style}
+        cases.append({"name": name + "/old-reformatted", "base": base, "files": [f1, dict(f1)], "timing": TIMINGS[j % 3], "trigger": TRIGGERS[(j // 3) % 3],
+                      "extra": extra, "old_style": 1 + j % 3})
+    for j, (name, sem, tf, cls) in enumerate(invalid_kinds()):
+        f1 = {"kind": cls, "sem": sem, "tf": name if tf else None, "style": 0}
+        cases.append({"name": name + "/old-reformatted", "base": "A", "files": [f1, {"kind": "valid", "sem": follow, "style": j % 4}], "timing": TIMINGS[j % 3],
+                      "trigger": TRIGGERS[(j // 3) % 3], "extra": {}, "old_style": 1 + j % 3})
     # seeded variations: random pairs of valid kinds chained (file 1 then file 2), random old style
     vk = valid_kinds()
     extra_n = 12 if quick else 400
@@ -385,6 +399,11 @@ class Script:
         self.seqno = {}
         self.clients = {}      # c -> (db, user)
         self.nadm = 0
+        self.inforce = BASES[case["base"]]   # the last file that was accepted and built (by file kind)
+        self.mode_at_connect = {}
+        self.connect_step = {}
+        self.never = set()     # clients whose (pool, user) did not exist when they connected
+        self.keeps = set()     # clients that checked out a server of a session-mode pool: they keep it until they leave
 
     def mark(self, extra_ms=0):
         self.steps.append({"op": "sleep", "ms": 12 + extra_ms})
@@ -396,6 +415,11 @@ class Script:
 
     def connect(self, c, db, usr, pw):
         self.clients[c] = (db, usr)
+        if (db, usr) not in keys_of(self.inforce):
+            self.never.add(c)
+        # client.rs:734/786: Client.transaction_mode is fixed when the client connects (see D2 below)
+        self.mode_at_connect[c] = self.session_mode(c)
+        self.connect_step[c] = len(self.steps)
         self.steps.append({"op": "connect", "c": c, "params": {"user": usr, "database": db}, "password": pw, "timeout_ms": 3000})
         self.ops.append(("connect", c, db, usr))
         self.mark()
@@ -406,11 +430,25 @@ class Script:
         self.steps.append({"op": "close", "c": c})
         self.steps.append({"op": "sleep", "ms": 25})
 
+    def session_mode(self, c):
+        db, usr = self.clients[c]
+        p = self.inforce["pools"].get(db)
+        if not p:
+            return False
+        us = [u for u in p["users"] if u["username"] == usr]
+        return bool(us) and (us[0].get("pool_mode") or p["opts"].get("pool_mode") or "transaction") == "session"
+
     def begin(self, c):
         k = len(self.ops)
+        if c in self.keeps:
+            # session mode: this client never checks out again (no model op); the statements still have to work
+            self.steps += q(c, "BEGIN", "keep:%s" % c) + q(c, self.sql(c), "keep:%s" % c)
+            return
         self.steps += q(c, "BEGIN", "op%d:begin" % k) + q(c, self.sql(c), "op%d:first" % k)
         self.ops.append(("begin", c))
         self.mark()
+        if self.mode_at_connect.get(c) and c not in self.never:
+            self.keeps.add(c)
 
     def inside(self, c):
         """a statement in the middle of the open transaction (no model op)"""
@@ -418,6 +456,9 @@ class Script:
 
     def end(self, c):
         k = len(self.ops)
+        if c in self.keeps:
+            self.steps += q(c, "COMMIT", "keep:%s" % c)
+            return
         self.steps += q(c, "COMMIT", "op%d:commit" % k)
         self.ops.append(("end", c))
         self.mark()
@@ -459,6 +500,8 @@ class Script:
             self.steps.append({"op": "control", "sig": "hup"})
             self.steps.append({"op": "sleep", "ms": 70 + slow})
         self.ops.append(("reload", i))
+        if f["kind"] == "valid" and not f.get("dead") and not f.get("revive"):
+            self.inforce = f["sem"]
         self.mark(10)
         if trig == "admin":
             self.admin_show("post%d" % k)
@@ -508,7 +551,7 @@ def build_script(case):
 def scenario(case):
     s = build_script(case)
     old = render(BASES[case["base"]], case.get("old_style", 0))
-    return {"backends": [{"name": b, **({"mode": "down"} if b == "bd" else {})} for b in BACKENDS], "toml": old, "steps": s.steps, "workers": 2}, s
+    return {"backends": [{"name": b, **({"mode": "down_held"} if b == "bd" else {})} for b in BACKENDS], "toml": old, "steps": s.steps, "workers": 2}, s
 
 
 # ------------------------------------------------------------------------------------ the model side
@@ -517,7 +560,7 @@ def coq_cfg(sem, ids):
     ps = []
     for n in sorted(sem["pools"], key=lambda x: DBID[x]):
         p = sem["pools"][n]
-        pd = ids["pdef"].setdefault(canon_pool(p), 10 + len(ids["pdef"]))
+        pd = ids["pdef"].setdefault(canon_pool(p, n), 10 + len(ids["pdef"]))
         ps.append("(%d, (%d, [%s]))" % (DBID[n], pd, "; ".join(str(USERID[u["username"]]) for u in p["users"])))
     g = ids["gen"].setdefault(canon_general(sem), 1 + len(ids["gen"]))
     return "{| cgen := %d; cpools := [%s] |}" % (g, "; ".join(ps))
@@ -566,7 +609,7 @@ def coq_ops(case, script):
     return "trace2 idh empty_world [%s]" % "; ".join(out), ids, cid
 
 
-PREAMBLE = "From Coq Require Import List. Import ListNotations.\nFrom PV Require Import Reload.Model Reload.Proofs.\n"
+PREAMBLE = "From Coq Require Import List. Import ListNotations.\nFrom PV Require Import Reload.Model.\n"
 
 
 def model_traces(cases_scripts):
@@ -899,7 +942,7 @@ def monitors(case, script, res, impl):
     for k, (o, i) in enumerate(zip(script.ops, impl)):
         if o[0] == "begin" and i["obs"][1] == "nopool":
             c = o[1]
-            later = [m for m in msgs if m["seq"] > i["prev"] and ("'%s_" % c in ((m.get("detail") or {}).get("sql") or "") or m["seq"] < i["seq"])]
+            later = [m for m in msgs if m["seq"] > i["prev"] and m.get("tag") in ("Q", "P", "B", "E", "S") and ("'%s_" % c in ((m.get("detail") or {}).get("sql") or "") or m["seq"] < i["seq"])]
             if later:
                 V.append(("S5", "%s: client %s was told 'No pool configured' but its statements reached a backend: %s" % (case["name"], c, [(m["who"], m["detail"].get("sql")) for m in later])))
     auth = case["extra"].get("auth")
@@ -914,6 +957,34 @@ def monitors(case, script, res, impl):
     return V, f12
 
 
+def stale_mode_hits(case, script, res):
+    """D2 (model-free): a pool that pgcat itself reports as session mode hands one server connection from a client that is
+    still connected to another client — the first client still runs with the transaction_mode flag of the pool it connected to."""
+    import re
+    ev = res["events"]
+    marks = [e for e in ev if e.get("ev") == "reload_state"]
+    left = {e["who"]: e["seq"] for e in ev if e.get("ev") == "closed_by_client"}
+    per = {}
+    for m in ev:
+        if m.get("ev") == "msg" and m.get("who") in BACKENDS and m.get("tag") == "Q":
+            g = re.search(r"'([A-Z][A-Z0-9]*)_\d+'", (m.get("detail") or {}).get("sql") or "")
+            if g:
+                per.setdefault((m["who"], m["conn"]), []).append((m["seq"], g.group(1)))
+    hits = []
+    for conn, l in per.items():
+        for (s1, c1), (s2, c2) in zip(l, l[1:]):
+            if c1 == c2 or left.get(c1, 1 << 60) < s2:
+                continue
+            before = [x for x in marks if x["seq"] < s2]
+            if not before:
+                continue
+            db, usr = script.clients[c1]
+            mode = [p["mode"] for p in before[-1]["state"]["pools"] if (p["db"], p["user"]) == (db, usr)]
+            if mode == ["Session"] and script.clients.get(c2) == (db, usr):
+                hits.append("%s: pool %s is in session mode, yet server connection %s served client %s and then client %s while %s was still connected" % (case["name"], db, conn, c1, c2, c1))
+    return hits
+
+
 # ------------------------------------------------------------------------------------ driver
 
 def slim(case):
@@ -923,6 +994,9 @@ def slim(case):
 
 
 def is_warm(case):
+    for sem in [BASES[case["base"]]] + [f["sem"] for f in case["files"] if f.get("sem")]:
+        if any(len(backends_of(sem, n)) > 1 for n in sem["pools"]):
+            return True      # the model has one server address per pool: no comparison of server connections
     for sem in [BASES[case["base"]]] + [f["sem"] for f in case["files"] if f.get("sem")]:
         g = dict(GEN_BASE); g.update(sem.get("general", {}))
         if g.get("validate_config") and not any(f.get("dead") for f in case["files"]):
@@ -959,6 +1033,7 @@ def evaluate(run, case, script, res, model, stats):
     for o, i in zip(script.ops, impl):
         ok_ = o[0] + ":" + str(i["obs"][1] if len(i["obs"]) > 1 else "")
         stats["obs"][ok_] = stats["obs"].get(ok_, 0) + 1
+    stats.setdefault("d2", []).extend(stale_mode_hits(case, script, res))
     return V, f12, dis
 
 
@@ -970,7 +1045,7 @@ def check(run):
         "'one reload' / 'one transaction start or end'; validated per run against pgcat in-process",
         "Pool::hash_value is a parameter of the model (hashf); theorems that need distinct definitions to hash differently state hash_inj; the tie checks per case that "
         "definition <-> hash is a bijection on the files used",
-        "a ConnectionPool lives as long as one clone (Arc) exists and closing the last clone closes its idle server connections; bb8 Lifo hand-out; pool_size not modelled (C04)",
+        "a ConnectionPool lives as long as one clone (Arc) exists and closing the last clone closes its idle server connections; bb8 Fifo hand-out (server_round_robin defaults to true); one server address per pool; pool_size not modelled (C04)",
         "reloads and client steps are atomic in the model: ArcSwap store/load of CONFIG and POOLS are single atomic pointer swaps and a client reads POOLS once per transaction start; "
         "a reload racing with itself (RELOAD + SIGHUP at once) is not modelled",
         "PostgreSQL = harness/src/mockpg.rs; the SIGHUP arm is the harness' transcription of main.rs (same reload_config call), real signal delivery is not exercised",
@@ -1017,6 +1092,13 @@ def check(run):
         if e is not None and e.get("status") == "known" and ok:
             run.violation("tie-broken", "known finding %s is listed, c14_partial_refuted is proved for the model, but no f12 case shows it on the implementation any more: update Model.v / known_findings.jsonl" % F12,
                           {"correspondence": "F12 witness vs wire run"}, found_input=False)
+    if stats.get("d2"):
+        e = known.get(D2)
+        if e is not None and e.get("status") == "fixed":
+            run.violation("counterexample", "regression of %s: %s" % (D2, stats["d2"][0]), {"class": D2, "hit": stats["d2"][0]})
+        else:
+            line = (e.get("line") or e.get("what")) if e else None
+            run.known_finding(line or (D2_TEXT + " [confirmed on %d cases, e.g. %s; reported, not yet listed in known_findings.jsonl]" % (len(stats["d2"]), stats["d2"][0])), key=D2)
     if first_dis and not run.violations:
         case, dis, model = first_dis
         run.cov["disagreements_checked"] += 1
@@ -1033,7 +1115,7 @@ def check(run):
                        "distinct = distinct (old text, new texts, timing, trigger); all non-trivial (>= 2 reloads, >= 6 transactions)"
                        % (len(valid_kinds()), len(invalid_kinds())))
     run.cov["input_distribution"] = {"cases": len(cases), "first_file_kind": kinds, "distinct_old_new_pairs": len(pairs), "model_steps_compared": stats["steps"],
-                                     "observations": stats["obs"], "f12_cases_confirmed": len(f12_seen)}
+                                     "observations": stats["obs"], "f12_cases_confirmed": len(f12_seen), "d2_stale_mode_hits": len(stats.get("d2", []))}
     if models and models[0]:
         run.cov["samples"] = [{"case": case_key(cases[0]), "model_obs": [s["obs"] for s in models[0]["steps"]][:12]},
                               {"case": case_key(cases[-1])}]
